@@ -52,8 +52,8 @@ CLAUSES = {
     "leap()/is_leap follow the leap rule in force": "proved [B64, every year, int and float argument]",
     "MJD = JDE - 2400000.5": "proved [B64, exact at 0h of every civil date]; other instants by correspondence/search",
     "mean sidereal time in [0,1)": "proved [ideal, every real JDE >= 0: C16_sidereal_ideal]; proved [B64] at 117 387 instants (every 100th day x 3 fractions; every 8th day in the thorough-only obligation); all JDE only searched (T3 not attempted)",
-    "mean sidereal time agrees with IAU 1982 to 1e-7 day, rate 1.00273790935 turns/day": "proved [ideal, EVERY real JDE >= 0: C16_sidereal_ideal - the returned value is in [0,1) and congruent mod 1 to the independently transcribed IAU 1982 expression Spec.Sidereal.gmst_iau1982 (exactly; within TOL=1e-10 d after 0h the code returns the 0h value, stated as such), C16_sidereal_rate - the expression advances by exactly 1.00273790935 turns/day within a civil day]; proved [B64 vs exact rational IAU 1982 value, 1e-7 day] at the 117 387 instants; binary64 rounding for all JDE: unproved (searched)",
-    "apparent - mean sidereal time = equation of the equinoxes, under 1.2 s": "proved [ideal: C16_apparent_ideal - apparent = mean + dpsi*3600*cos(eps)/15/86400 for arbitrary nutation dpsi and obliquity eps given as floats or Angles]; the size bound 1.2 s depends on the nutation series: unproved (searched; correspondence + oracle over JDE in [0, 5.4e6]); known finding equation-of-equinoxes-exceeds-1.2s-far-epochs (up to ~1.204 s outside years -2000..4000)",
+    "mean sidereal time agrees with IAU 1982 to 1e-7 day, rate 1.00273790935 turns/day": "proved [ideal, EVERY real JDE >= 0: C16_sidereal_ideal - the returned value is in [0,1) and congruent mod 1 to the independently transcribed IAU 1982 expression Spec.Sidereal.gmst_iau1982 (exactly; within TOL=1e-10 d after 0h the code returns the 0h value, stated as such), C16_sidereal_rate - [spec, true by definition of the transcribed expression] it advances by exactly 1.00273790935 turns/day within a civil day; tied to the code only through C16_sidereal_ideal]; proved [B64 vs exact rational IAU 1982 value, 1e-7 day] at the 117 387 instants; binary64 rounding for all JDE: unproved (searched)",
+    "apparent - mean sidereal time = equation of the equinoxes, under 1.2 s": "proved [ideal: C16_apparent_ideal - apparent = mean + dpsi*3600*cos(eps)/15/86400 for arbitrary nutation dpsi and obliquity eps given as floats or Angles; this restates the code's own formula (pins the units and the /15 and /86400 factors), it is not an independent property; the hypothesis 'mean_sidereal_time returns VFloat s' is satisfiable for every JDE >= 0 by C16_sidereal_ideal]; the size bound 1.2 s depends on the nutation series: unproved (searched; correspondence + oracle over JDE in [0, 5.4e6]); known finding equation-of-equinoxes-exceeds-1.2s-far-epochs (up to ~1.204 s outside years -2000..4000)",
 }
 
 
